@@ -250,3 +250,14 @@ impl<T: Eq + Hash> Extend<T> for HashSet<T> {
 pub mod hash_map {
     pub use std::collections::hash_map::Entry;
 }
+
+/// Deterministic stand-in for the iteration order of a std `HashMap` that rFSM receives from a
+/// dependency (rocket's decoded form): the entries in an order that is a pure function of the run's
+/// hash seed and the keys. Different runs see different orders, one run always the same.
+pub fn seeded_order<K: Ord + std::hash::Hash, V>(m: std::collections::HashMap<K, V>) -> Vec<(K, V)> {
+    use std::hash::BuildHasher;
+    let st = SeededState::default();
+    let mut v: Vec<(u64, K, V)> = m.into_iter().map(|(k, val)| (st.hash_one(&k), k, val)).collect();
+    v.sort_by(|a, b| a.0.cmp(&b.0).then_with(|| a.1.cmp(&b.1)));
+    v.into_iter().map(|(_, k, val)| (k, val)).collect()
+}
